@@ -22,10 +22,25 @@ C12.d  [flow]  echo_recovery of the file-backed context is fresh per process; th
 
 Vocabulary (outside it the rule stops with an analysis error, never a verdict):
 window tests are calls `<w>.is_initialized()` / `<w>.is_valid(x)` used as branch
-conditions (directly, negated, or through a single-assignment local); the verdict
-variable is a local assigned `ReplayError(...)`; "request side" is
-`<msg>.code.is_response()` false or `<msg>.code.is_request()` true for the message
-parameter (directly or through a single-assignment local).
+conditions (directly, negated, through a local, or as the condition of a conditional
+expression that is assigned -- those are rewritten into if statements on a private
+copy first); the verdict variable is a local assigned `ReplayError(...)`; "request
+side" is `<msg>.code.is_response()` false or `<msg>.code.is_request()` true for the
+message parameter.
+
+How guards are read (false-alarm discipline): "X is guarded by C" is decided by
+`SiteFacts` over the engine's path model -- C holds at X when, on every modelled path
+to X (exceptional edges included), the last decision on the atom C gave that value and
+nothing C reads was written since (locals rebound, attribute chains stored, and for the
+window's query methods: a window mutator called).  Nesting, early returns/raises,
+`elif a and c` after `if a and b`, De Morgan forms, named conditions and guard order
+make no difference.  Window queries are one atom only between two mutator calls
+(`EpochPathModel`).  Values are followed through definitions that *reach* a use on a
+path, copies `a = b` are looked through.
+
+The ReplayWindow methods are read from a private re-parse with helper expansion but
+without the engine's copy propagation (see `sound_methods` for the engine defect this
+works around); the symbolic execution substitutes locals itself, flow-sensitively.
 
 Helpers defined here (reach_cut, must_complete, sym_paths, truth-table equivalence)
 are shared with c13.py.
@@ -36,6 +51,7 @@ from itertools import product
 
 from ..rulekit import *
 from ..norm import Normalizer, Poly, NormError
+from ..paths import PathModel, atom_key
 
 R = Rules(
     "C12",
@@ -62,6 +78,8 @@ UNP = "oscore.CanUnprotect.unprotect"
 RW = "oscore.ReplayWindow."
 FSC = "oscore.FilesystemSecurityContext"
 WINDOW_MUTATORS = ("strike_out", "initialize_from_freshlyseen", "initialize_empty", "initialize_from_persisted")
+WINDOW_QUERIES = ("is_initialized", "is_valid")
+WINDOW_FIELDS = ("_index", "_bitfield")
 
 
 # ---------------------------------------------------------------------------
@@ -220,6 +238,223 @@ def outcome(cfg, test_id, label):
     return [d for d, lab in cfg.succ[test_id] if lab == label]
 
 
+# --- path-sensitive facts -------------------------------------------------------
+#
+# `facts_at` above reads the branch outcomes that *dominate* a node.  That is a statement about the shape of the
+# code: `if a and b: X  elif a and c: Y` puts Y under "a, c, and not (a and b)", from which `not b` follows, but no
+# branch outcome `b is False` dominates Y.  `SiteFacts` states the same thing over the path model: an atomic fact
+# holds at a node when, on every modelled path to that node (exceptional edges included), the last decision on that
+# atom before the node gave that value and nothing it reads was written since.
+
+
+def _state_reads(e, attrs):
+    return any(isinstance(n, ast.Call) and isinstance(n.func, ast.Attribute) and n.func.attr in attrs for n in ast.walk(e))
+
+
+class EpochPathModel(PathModel):
+    """Path model in which a test that reads mutable object state through a query method (`w.is_initialized()`,
+    `w.is_valid(n)`) is one atom only among the occurrences that have the same set of possibly preceding mutator
+    statements: two occurrences with a mutator call in between are decided independently."""
+
+    def __init__(self, fi, query_attrs, mutator_nodes, **kw):
+        self._qattrs = tuple(query_attrs)
+        self._mut_nodes = set(mutator_nodes)
+        self._reach_of = {}
+        super().__init__(fi, **kw)
+
+    def key_of(self, node):
+        k, pol = super().key_of(node)
+        if node.ast is not None and _state_reads(node.ast, self._qattrs):
+            ep = []
+            for m in sorted(self._mut_nodes):
+                if m not in self._reach_of:
+                    self._reach_of[m] = self.cfg.reach({m})
+                if node.id in self._reach_of[m]:
+                    ep.append(str(m))
+            k = "%s @w[%s]" % (k, ",".join(ep))
+        return k, pol
+
+
+def _node_writes(nd):
+    """(names bound, attribute/subscript base chains stored, ast parts evaluated) by one CFG node."""
+    a = nd.ast
+    if a is None or nd.kind in ("T", "F", "join", "entry", "exit", "rexit"):
+        return set(), set(), []
+    if nd.kind == "for":
+        parts = [a.target, a.iter]
+    elif nd.kind == "with":
+        parts = [x for it in a.items for x in (it.context_expr, it.optional_vars) if x is not None]
+    elif nd.kind == "handler":
+        return ({a.name} if getattr(a, "name", None) else set()), set(), []
+    else:
+        parts = [a]
+    names, chains = set(), set()
+    for part in parts:
+        for n in walk_no_nested(part):
+            if isinstance(n, ast.Name) and isinstance(n.ctx, (ast.Store, ast.Del)):
+                names.add(n.id)
+            elif isinstance(n, ast.NamedExpr):
+                names.add(n.target.id)
+            elif isinstance(n, (ast.Attribute, ast.Subscript)) and isinstance(n.ctx, (ast.Store, ast.Del)):
+                b = n
+                while isinstance(b, ast.Subscript):
+                    b = b.value
+                c = chain(b)
+                if c:
+                    chains.add(c)
+            elif isinstance(n, (ast.FunctionDef, ast.AsyncFunctionDef, ast.ClassDef)) and n is not part:
+                names.add(n.name)
+    return names, chains, parts
+
+
+class SiteFacts:
+    def __init__(self, fi, query_attrs=(), mutator_attrs=(), state_fields=()):
+        self.fi = fi
+        self.cfg = cfg = cfg_of(fi)
+        self.qattrs = tuple(query_attrs)
+        self.mattrs = tuple(mutator_attrs)
+        self.sfields = tuple(state_fields)
+        self._w = {}
+        self._cache = {}
+        self._ai, self._ex, self._pf = {}, {}, {}
+        self.mut_nodes = {n.id for n in cfg.nodes if self._mutates(n)}
+        self.pm = EpochPathModel(fi, self.qattrs, self.mut_nodes, include_exc=True, max_paths=60000)
+
+    def _mutates(self, nd):
+        names, chains, parts = self._writes(nd)
+        for part in parts:
+            for n in walk_no_nested(part):
+                if isinstance(n, ast.Attribute) and n.attr in self.mattrs:  # called, or taken as a bound method
+                    return True
+        return any(c.split(".")[-1] in self.sfields for c in chains)
+
+    def _writes(self, nd):
+        if nd.id not in self._w:
+            self._w[nd.id] = _node_writes(nd)
+        return self._w[nd.id]
+
+    def _kills(self, nid, x, xnames, xchains, xstate, transparent=()):
+        nd = self.cfg.nodes[nid]
+        names, chains, _ = self._writes(nd)
+        if names & xnames:
+            return True
+        for c in chains:
+            for r in xchains:
+                if r == c or r.startswith(c + ".") or c.startswith(r + "."):
+                    return True
+        return xstate and nid in self.mut_nodes and nid not in transparent
+
+    def _atom_info(self, x):
+        i = self._ai.get(id(x))
+        if i is None:
+            xnames = {m.id for m in ast.walk(x) if isinstance(m, ast.Name)}
+            xchains = {c for c in (chain(m) for m in ast.walk(x) if isinstance(m, ast.Attribute)) if c}
+            i = self._ai[id(x)] = (xnames, xchains, _state_reads(x, self.qattrs), atom_key(x), x)
+        return i
+
+    def _expand(self, n):
+        r = self._ex.get(n)
+        if r is None:
+            nd = self.cfg.nodes[n]
+            r = []
+            if nd.kind in ("T", "F") and isinstance(nd.ast, ast.expr):
+                r = expand_fact(self.fi.node, nd.ast, nd.kind == "T")
+            self._ex[n] = r
+        return r
+
+    def _path_facts(self, nodes, transparent=frozenset()):
+        """{(atom key, truth): (expr, pol, via)} live at the end of the node sequence.  Mutator statements in
+        `transparent` do not invalidate object-state facts (for "the state in which that very mutator was called")."""
+        key = (tuple(nodes), transparent)
+        if key in self._pf:
+            return self._pf[key]
+        cfg = self.cfg
+        pos = {}
+        live = {}
+        for j, n in enumerate(nodes):
+            pos[n] = j  # last occurrence so far
+            nd = cfg.nodes[n]
+            if nd.kind in ("T", "F"):
+                for x, pol, d in self._expand(n):
+                    xnames, xchains, xstate, (k, kp), _ = self._atom_info(x)
+                    if d is not None:
+                        # the fact was evaluated where the local was defined: nothing it reads may change from there on
+                        dn = [q for q in cfg.locate(d) if q in pos and pos[q] < j]
+                        if not dn:
+                            continue
+                        j0 = max(pos[q] for q in dn)
+                        if any(self._kills(q, x, xnames, xchains, xstate, transparent) for q in nodes[j0 + 1:j]):
+                            continue
+                    # a later decision on the same atom replaces an earlier one
+                    live.pop((k, not (kp == pol)), None)
+                    live[(k, kp == pol)] = (x, pol, (d, n) if d is not None else None)
+            elif live:
+                names, chains, _ = self._writes(nd)
+                if names or chains or n in self.mut_nodes:
+                    for fk in [fk for fk, (x, pol, via) in live.items() if self._kills(n, x, *self._atom_info(x)[:3], transparent)]:
+                        del live[fk]
+        self._pf[key] = live
+        return live
+
+    def at(self, nid, transparent=frozenset()):
+        """[(expr, polarity, via)] -- the atomic facts that hold whenever control reaches node nid."""
+        transparent = frozenset(transparent)
+        ck = (nid, transparent)
+        if ck in self._cache:
+            return self._cache[ck]
+        common = None
+        for p in self.pm.paths_through(nid):
+            idxs = [i for i, n in enumerate(p.nodes) if n == nid]
+            for i in idxs:
+                live = self._path_facts(p.nodes[:i], transparent)
+                if common is None:
+                    common = dict(live)
+                else:
+                    for key in [k for k in common if k not in live]:
+                        del common[key]
+                if not common:
+                    break
+            if common is not None and not common:
+                break
+        if common is None:
+            # not on any modelled path (dead code, or beyond the loop bound): the dominating branch outcomes
+            out = facts_at(self.cfg, self.fi.node, nid)
+        else:
+            out = sorted(common.values(), key=lambda t: (getattr(t[0], "lineno", 0), getattr(t[0], "col_offset", 0), t[1]))
+        self._cache[ck] = out
+        return out
+
+    def passed(self, nid):
+        """Branch outcomes (atomic, as [(expr, polarity)]) that every modelled path to nid went through, whether or
+        not what they read was modified afterwards ("this arm is only entered when ...")."""
+        common = None
+        for p in self.pm.paths_through(nid):
+            i = p.nodes.index(nid)
+            got = {}
+            for n in p.nodes[:i]:
+                if self.cfg.nodes[n].kind in ("T", "F"):
+                    for x, pol, d in self._expand(n):
+                        k, kp = self._atom_info(x)[3]
+                        got[(k, kp == pol)] = (x, pol, None)
+            common = got if common is None else {k: v for k, v in common.items() if k in got}
+        if common is None:
+            return facts_at(self.cfg, self.fi.node, nid)
+        return list(common.values())
+
+
+def window_site_facts(prog, fi):
+    """SiteFacts of a function with respect to the replay window's queries and mutators (one per program and function:
+    the path enumeration is shared by the clauses)."""
+    cache = prog.__dict__.setdefault("_c12_sitefacts", {})
+    if fi.qn not in cache or cache[fi.qn].fi is not fi:
+        cache[fi.qn] = SiteFacts(fi, query_attrs=WINDOW_QUERIES, mutator_attrs=WINDOW_MUTATORS, state_fields=WINDOW_FIELDS)
+    return cache[fi.qn]
+
+
+def show_facts(facts):
+    return "; ".join("%s is %s" % (stmt_text(e, 50), pol) for e, pol, _ in facts) or "(none)"
+
+
 # --- symbolic execution of small loop-free methods ---------------------------
 
 
@@ -260,18 +495,24 @@ class SymPath:
 
 
 class _St:
-    def __init__(self, penv, benv, cp, bits, nst):
+    def __init__(self, penv, benv, cp, bits, nst, eenv=None):
         self.penv, self.benv, self.cp, self.bits, self.nst = penv, benv, cp, bits, nst
+        # name -> (value expression, normalizer at the definition, number of field stores before the definition):
+        # lets a local be looked through *at its definition point* (`mask = 1 << (n - self._index)`,
+        # `valid = self.is_valid(n)`), whatever was stored to the fields in between
+        self.eenv = eenv if eenv is not None else {}
 
     def copy(self):
-        return _St(dict(self.penv), dict(self.benv), dict(self.cp), dict(self.bits), self.nst)
+        return _St(dict(self.penv), dict(self.benv), dict(self.cp), dict(self.bits), self.nst, dict(self.eenv))
 
 
-def sym_paths(fi, tracked, bits=(), consts=None, rename=None, limit=400):
+def sym_paths(fi, tracked, bits=(), consts=None, rename=None, limit=400, split_choices=False):
     """Enumerate the non-exceptional paths of a loop-free function, executing
     assignments symbolically.  `tracked`: {chain: atom} fields whose values are
     polynomials; `bits`: {chain: atom} fields handled as shift/or op lists;
-    `consts`: {chain: atom} fields read but (required) never written."""
+    `consts`: {chain: atom} fields read but (required) never written.
+    `split_choices`: an assignment from `A if c else B`, `max(A, B)` or `min(A, B)`
+    forks into one path per arm, with the arm's condition as a fact."""
     cfg = cfg_of(fi)
     for n in walk_no_nested(fi.node):
         # handler bodies are reached along exceptional edges only, which this walk does not follow: fail closed
@@ -289,7 +530,9 @@ def sym_paths(fi, tracked, bits=(), consts=None, rename=None, limit=400):
         cp = dict(st.cp)
         for ch, ops in st.bits.items():
             cp[ch] = Poly.atom(bits[ch] if not ops else "%s'%d" % (bits[ch], len(ops)))
-        return SN(cpenv=cp, penv=dict(st.penv), rename=rename)
+        N = SN(cpenv=cp, penv=dict(st.penv), rename=rename)
+        N.eenv = dict(st.eenv)
+        return N
 
     def opaque(tag):
         uniq[0] += 1
@@ -301,27 +544,48 @@ def sym_paths(fi, tracked, bits=(), consts=None, rename=None, limit=400):
         except NormError:
             return opaque(tag)
 
+    def follow(st, N, e, ch=None):
+        """Look through locals to their defining expression (evaluated in the state of the definition).  A value
+        that reads the bit field `ch` is followed only while no field was stored since (the op list of the bit field
+        is kept per state, not per definition)."""
+        seen = 0
+        env = st.eenv
+        while isinstance(e, ast.Name) and e.id in env and seen < 6:
+            v, Nv, nstv = env[e.id]
+            if nstv != st.nst and any(chain(x) in bits for x in ast.walk(v) if isinstance(x, ast.Attribute)):
+                break
+            e, N = v, Nv
+            env = getattr(Nv, "eenv", {})  # names inside the value mean what they meant at its definition
+            seen += 1
+        return e, N
+
     def bexpr(st, N, ch, e):
+        e, N = follow(st, N, e, ch)
         if chain(e) == ch:
             return st.bits[ch]
         if isinstance(e, ast.Constant) and isinstance(e.value, int) and not isinstance(e.value, bool):
             return (("const", e.value),)
         if isinstance(e, ast.BinOp):
-            if isinstance(e.op, ast.RShift):
-                return bexpr(st, N, ch, e.left) + (("shr", pval(N, e.right, "shr")),)
-            if isinstance(e.op, ast.LShift) and match("1 << $k", e) is None:
-                return bexpr(st, N, ch, e.left) + (("shl", pval(N, e.right, "shl")),)
+            if isinstance(e.op, (ast.RShift, ast.LShift)) and not (isinstance(e.op, ast.LShift) and match("1 << $k", e) is not None):
+                by = pval(N, e.right, "shift")
+                if by.is_const() and by.const_value() == 0:
+                    return bexpr(st, N, ch, e.left)  # x >> 0 == x << 0 == x
+                return bexpr(st, N, ch, e.left) + (("shr" if isinstance(e.op, ast.RShift) else "shl", by),)
             if isinstance(e.op, (ast.BitOr, ast.Add)):
                 for a, b in ((e.left, e.right), (e.right, e.left)):
-                    m = match("1 << $k", b)
+                    b, Nb = follow(st, N, b, ch)
+                    m = match("1 << $k", b) or match("2 ** $k", b)
                     if m is not None:
-                        return bexpr(st, N, ch, a) + (("setbit", pval(N, m["k"], "bit")),)
+                        return bexpr(st, N, ch, a) + (("setbit", pval(Nb, m["k"], "bit")),)
         return (("opaque", stmt_text(e)),)
 
-    def assign(st, p, tgt, value, node, nid, aug=None):
-        N = mkN(st)
+    def assign(st, p, tgt, value, node, nid, aug=None, N=None):
+        N = mkN(st) if N is None else N
         if isinstance(tgt, ast.Name):
             st.benv.pop(tgt.id, None)
+            st.eenv.pop(tgt.id, None)
+            if aug is None and value is not None:
+                st.eenv[tgt.id] = (value, N, st.nst)
             if aug is not None:
                 st.penv[tgt.id] = pval(N, ast.BinOp(left=ast.Name(id=tgt.id, ctx=ast.Load()), op=aug, right=value), tgt.id)
             elif isinstance(value, (ast.Compare, ast.BoolOp)) or (isinstance(value, ast.UnaryOp) and isinstance(value.op, ast.Not)):
@@ -331,6 +595,11 @@ def sym_paths(fi, tracked, bits=(), consts=None, rename=None, limit=400):
                 st.penv[tgt.id] = pval(N, value, tgt.id) if value is not None else opaque(tgt.id)
             return
         if isinstance(tgt, (ast.Tuple, ast.List)):
+            if isinstance(value, (ast.Tuple, ast.List)) and len(value.elts) == len(tgt.elts) and not any(isinstance(x, ast.Starred) for x in list(value.elts) + list(tgt.elts)):
+                # a, b = x, y: the right-hand side is evaluated completely before the first store
+                for el, val in zip(tgt.elts, value.elts):
+                    assign(st, p, el, val, node, nid, N=N)
+                return
             for el in tgt.elts:
                 assign(st, p, el, None, node, nid)
             return
@@ -397,17 +666,26 @@ def sym_paths(fi, tracked, bits=(), consts=None, rename=None, limit=400):
                 if it.optional_vars is not None:
                     assign(st, p, it.optional_vars, None, a, nid)
         elif k == "stmt":
-            if isinstance(a, ast.Assign):
+            if isinstance(a, (ast.Assign, ast.AugAssign, ast.AnnAssign)) and a.value is not None:
                 record_calls(st, p, a.value, nid)
-                for t in a.targets:
-                    assign(st, p, t, a.value, a, nid)
-            elif isinstance(a, ast.AugAssign):
-                record_calls(st, p, a.value, nid)
-                assign(st, p, a.target, a.value, a, nid, aug=a.op)
+                targets = a.targets if isinstance(a, ast.Assign) else [a.target]
+                aug = a.op if isinstance(a, ast.AugAssign) else None
+                alts = split_value(a.value) if split_choices else None
+                if alts is not None:
+                    # x = A if c else B / x = max(A, B) / x = min(A, B): one path per arm, with the arm's condition
+                    for i, (cexpr, pol, vexpr) in enumerate(alts):
+                        st2, p2 = (st, p) if i == len(alts) - 1 else (st.copy(), SymPath())
+                        if p2 is not p:
+                            p2.trace = list(p.trace)
+                        p2.trace.append(("fact", cexpr, pol, mkN(st2), st2.nst, nid, dict(st2.benv)))
+                        for t in targets:
+                            assign(st2, p2, t, vexpr, a, nid, aug=aug)
+                        cont(nid, st2, p2, onpath)
+                    return
+                for t in targets:
+                    assign(st, p, t, a.value, a, nid, aug=aug)
             elif isinstance(a, ast.AnnAssign):
-                if a.value is not None:
-                    record_calls(st, p, a.value, nid)
-                    assign(st, p, a.target, a.value, a, nid)
+                pass  # bare annotation
             elif isinstance(a, ast.Assert):
                 pass  # never a guard, never an effect
             elif isinstance(a, ast.Delete):
@@ -421,6 +699,9 @@ def sym_paths(fi, tracked, bits=(), consts=None, rename=None, limit=400):
                 raise AnalysisError("%s: match statement outside the rule's vocabulary" % fi.short)
             elif a is not None:
                 record_calls(st, p, a, nid)
+        cont(nid, st, p, onpath)
+
+    def cont(nid, st, p, onpath):
         succ = [d for d, lab in cfg.succ[nid] if lab != "exc"]
         for i, d in enumerate(succ):
             if i == len(succ) - 1:
@@ -429,6 +710,16 @@ def sym_paths(fi, tracked, bits=(), consts=None, rename=None, limit=400):
                 p2 = SymPath()
                 p2.trace = list(p.trace)
                 step(d, st.copy(), p2, onpath | {nid})
+
+    def split_value(v):
+        """[(condition, polarity, value)] for a value that is a choice between two expressions, else None."""
+        if isinstance(v, ast.IfExp):
+            return [(v.test, True, v.body), (v.test, False, v.orelse)]
+        if isinstance(v, ast.Call) and isinstance(v.func, ast.Name) and v.func.id in ("max", "min") and len(v.args) == 2 and not v.keywords and not any(isinstance(x, ast.Starred) for x in v.args):
+            x, y = v.args
+            c = ast.copy_location(ast.Compare(left=x, ops=[ast.GtE() if v.func.id == "max" else ast.LtE()], comparators=[y]), v)
+            return [(c, True, x), (c, False, y)]
+        return None
 
     cp0 = {ch: Poly.atom(a) for ch, a in tracked.items()}
     cp0.update({ch: Poly.atom(a) for ch, a in consts.items()})
@@ -467,9 +758,36 @@ def canon(c):
     raise NormError("canon %r" % (c,))
 
 
+def _single_atom(p):
+    """Name of the atom when the polynomial is exactly one atom, else None."""
+    if len(p.t) == 1:
+        (mono, coef), = p.t.items()
+        if coef == 1 and len(mono) == 1 and mono[0][1] == 1:
+            return mono[0][0]
+    return None
+
+
 def cmp_nf(N, e):
     if isinstance(e, ast.BinOp):  # arithmetic value in boolean position: != 0
         return ("ne", _signnorm(N.poly(e)))
+    if isinstance(e, ast.Name):
+        # a local in boolean position means what its defining expression meant where it was defined
+        # (`seen = (B >> off) & 1 ... return not seen`)
+        ent = getattr(N, "eenv", {}).get(e.id)
+        if ent is not None and not (isinstance(ent[0], ast.Name) and ent[0].id == e.id):
+            return cmp_nf(ent[1], ent[0])
+    if isinstance(e, ast.Compare) and len(e.ops) == 1 and isinstance(e.ops[0], (ast.Is, ast.IsNot)):
+        # identity tests on a local that merely names a tracked field (`index = self._index; index is None`)
+        ops = []
+        for x in (e.left, e.comparators[0]):
+            nm = None
+            if isinstance(x, (ast.Name, ast.Attribute)):
+                try:
+                    nm = _single_atom(N.poly(x))
+                except NormError:
+                    nm = None
+            ops.append(nm if nm is not None else N.atom_name(x))
+        return ("is" if isinstance(e.ops[0], ast.Is) else "isnot", ops[0], ops[1])
     return N.cmp(e)
 
 
@@ -611,6 +929,127 @@ def ref_poly(src):
     return Normalizer().poly(ast.parse(src, mode="eval").body)
 
 
+def sound_methods(ctx, clsshort):
+    """{name: FuncInfo} for the methods of class `clsshort`, on a private re-parse of its module on which ONLY helper
+    expansion ran.
+
+    Why: the engine's copy propagation (inline._CopyProp) decides "is a field read by the temporary stored between
+    the definition and the use" by comparing *line numbers*; statements that came out of an expanded helper keep the
+    helper's line numbers, so a store that textually sits above the caller (`def _advance(self, k): self._index += k;
+    self._bitfield >>= k` defined before strike_out) is taken to lie before the temporary and
+    `top = self._index + self._size - 1 ... self._advance(number - top)` becomes
+    `self._index += number - (self._index + ...); self._bitfield >>= number - (self._index + ...)` with the second
+    read seeing the *new* index -- a different program.  The symbolic execution below does its own, flow-sensitive
+    substitution of locals (penv / eenv are snapshots per statement), so it needs no copy propagation and is run on
+    the tree without it.  The private expansion sees only this module; that equals the whole-program expansion when
+    the class has no sub- or superclass elsewhere, which is required here."""
+    from .. import inline as _inline
+    from ..model import Module, FuncInfo
+
+    prog = ctx.prog
+    ci = prog.cls(clsshort)
+    cache = prog.__dict__.setdefault("_c12_sound", {})
+    if ci.qn in cache:
+        return cache[ci.qn]
+    others = [q for q in prog.subclasses(ci.qn) if q != ci.qn]
+    ctx.need(not others and not ci.node.bases, "%s takes part in an inheritance hierarchy (%s): private helper expansion would not see dynamic dispatch" % (clsshort, others or [stmt_text(b) for b in ci.node.bases]))
+    m0 = ci.module
+    m = Module(m0.name, m0.path, m0.src, m0.is_pkg)
+    m.imports = dict(m0.imports)
+    try:
+        _inline.Inliner({m.name: m}).run()
+    except RecursionError as e:  # pragma: no cover
+        raise AnalysisError("private helper expansion of %s failed: %s" % (m0.name, e))
+    node = None
+    for n in ast.walk(m.tree):
+        if isinstance(n, ast.ClassDef) and n.name == ci.node.name and getattr(n, "lineno", None) == getattr(ci.node, "lineno", None):
+            node = n
+    ctx.need(node is not None, "class %s not found in the private re-parse" % clsshort)
+    out = {}
+    for st in node.body:
+        if isinstance(st, (ast.FunctionDef, ast.AsyncFunctionDef)) and st.name not in out:
+            out[st.name] = FuncInfo(ci.qn + "." + st.name, st, m, ci, None)
+    cache[ci.qn] = out
+    return out
+
+
+class _IfExpToIf(ast.NodeTransformer):
+    """`x = A if c else B` -> `if c: x = A  else: x = B` (also augmented/annotated assignments and `return`), applied
+    repeatedly for nested conditional expressions.  The condition is evaluated before either value and before the
+    target in both spellings, so the rewrite preserves behaviour; it makes the condition a branch of the CFG."""
+
+    def _split(self, st, get, mk):
+        v = get(st)
+        if not isinstance(v, ast.IfExp):
+            return st
+        a = self.visit(ast.copy_location(mk(st, v.body), st))
+        b = self.visit(ast.copy_location(mk(st, v.orelse), st))
+        new = ast.If(test=v.test, body=a if isinstance(a, list) else [a], orelse=b if isinstance(b, list) else [b])
+        return ast.fix_missing_locations(ast.copy_location(new, st))
+
+    def visit_Assign(self, st):
+        return self._split(st, lambda s: s.value, lambda s, v: ast.Assign(targets=s.targets, value=v))
+
+    def visit_AugAssign(self, st):
+        return self._split(st, lambda s: s.value, lambda s, v: ast.AugAssign(target=s.target, op=s.op, value=v))
+
+    def visit_AnnAssign(self, st):
+        if st.value is None:
+            return st
+        return self._split(st, lambda s: s.value, lambda s, v: ast.AnnAssign(target=s.target, annotation=s.annotation, value=v, simple=s.simple))
+
+    def visit_Return(self, st):
+        if st.value is None:
+            return st
+        return self._split(st, lambda s: s.value, lambda s, v: ast.Return(value=v))
+
+    def visit_FunctionDef(self, n):
+        return n  # nested scopes are not touched
+
+    visit_AsyncFunctionDef = visit_FunctionDef
+    visit_Lambda = visit_FunctionDef
+    visit_ClassDef = visit_FunctionDef
+
+
+def desugared(prog, fi):
+    """FuncInfo of a private copy of fi in which conditional-expression statements are if statements."""
+    import copy
+    from ..model import FuncInfo
+
+    cache = prog.__dict__.setdefault("_c12_desugared", {})
+    if fi.qn not in cache:
+        node = copy.deepcopy(fi.node)
+        _IfExpToIf().generic_visit(node)  # (generic_visit: the function itself is the root, nested defs are skipped)
+        ast.fix_missing_locations(node)
+        if ast.dump(node) == ast.dump(fi.node):
+            cache[fi.qn] = fi  # nothing to rewrite: keep the indexed function (and its cached CFG)
+        else:
+            cache[fi.qn] = FuncInfo(fi.qn, node, fi.module, fi.cls, fi.parent)
+    return cache[fi.qn]
+
+
+def call_unit(prog, root):
+    """{short name: (FuncInfo, [(calling FuncInfo, call node)])}: `root` and, transitively, the methods of its own
+    class (MRO) that it calls as `self.<m>(...)`.  Methods merely *referred to* (`ReplayWindow(n, self._changed)`) are
+    not part of the unit: they run later, not as part of root."""
+    unit = {root.short: (root, [])}
+    if root.cls is None:
+        return unit
+    todo = [root]
+    while todo:
+        f = todo.pop()
+        for c in calls_in(f.node):
+            if isinstance(c.func, ast.Attribute) and chain(c.func.value) == "self":
+                g = prog.lookup_method(root.cls.qn, c.func.attr)
+                if g is None:
+                    continue
+                if g.short not in unit:
+                    unit[g.short] = (g, [])
+                    todo.append(g)
+                unit[g.short][1].append((f, c))
+    return unit
+
+
 # ---------------------------------------------------------------------------
 # unprotect: shared extraction
 
@@ -633,7 +1072,7 @@ def _side(e, pol, msg):
 
 def _unprotect(ctx):
     u = _Unp()
-    u.fi = fi = ctx.prog.func(UNP)
+    u.fi = fi = desugared(ctx.prog, ctx.prog.func(UNP))
     u.cfg = cfg = cfg_of(fi)
     p = params(fi)
     ctx.need(len(p) >= 1, "unprotect has no message parameter")
@@ -685,6 +1124,7 @@ def _unprotect(ctx):
         return lambda e: isinstance(e, ast.Call) and isinstance(e.func, ast.Attribute) and e.func.attr == attr
     u.init_tests = test_nodes(cfg, fi.node, is_call("is_initialized"))
     u.valid_tests = test_nodes(cfg, fi.node, is_call("is_valid"))
+    u.sf = window_site_facts(ctx.prog, fi)
     # request / response side outcomes
     u.resp_outcomes = set()
     for n in cfg.nodes:
@@ -695,8 +1135,108 @@ def _unprotect(ctx):
     return u
 
 
-def _arg0(call):
-    return call.args[0] if len(call.args) == 1 and not call.keywords else None
+def _const_int(prog, fi, e):
+    """Integer value of an expression over literals, single-assignment locals and module-level constants."""
+    e = resolve_local(fi.node, e)
+    env = {}
+    for nm in {x.id for x in ast.walk(e) if isinstance(x, ast.Name)}:
+        if writes_to_name(fi.node, nm) or nm in params(fi, skip_self=False):
+            return None
+        try:
+            env[nm] = prog.module_const(_modshort(fi.module), nm)
+        except AnchorError:
+            return None
+    try:
+        n = norm.consteval(e, env) if env else norm.consteval(e)
+    except (NormError, AnalysisError):
+        return None
+    return n if isinstance(n, int) and not isinstance(n, bool) else None
+
+
+def _modshort(m):
+    return m.name[len("aiocoap."):] if m.name.startswith("aiocoap.") else m.name
+
+
+def _is_unauthorized(prog, fi, e):
+    """Does the expression denote the response code 4.01 -- the name UNAUTHORIZED however it was imported
+    (`UNAUTHORIZED`, `Code.UNAUTHORIZED`, `numbers.codes.UNAUTHORIZED`)?"""
+    c = chain(resolve_local(fi.node, e))
+    if c is None:
+        return False
+    if c.split(".")[-1] != "UNAUTHORIZED":
+        return False
+    head = c.split(".")[0]
+    return head in fi.module.imports and not writes_to_name(fi.node, head)
+
+
+def value_alts(fnode, value):
+    """[(value, [facts])]: `A if c else B` is the two values A (under c) and B (under not c)."""
+    alts = [(value, [])]
+    for _ in range(4):
+        if not any(isinstance(v, ast.IfExp) for v, _x in alts):
+            break
+        nxt = []
+        for v, extra in alts:
+            if isinstance(v, ast.IfExp):
+                nxt.append((v.body, extra + expand_fact(fnode, v.test, True)))
+                nxt.append((v.orelse, extra + expand_fact(fnode, v.test, False)))
+            else:
+                nxt.append((v, extra))
+        alts = nxt
+    return alts
+
+
+def call_arg(call, pnames, index):
+    """The argument a call binds to the index-th parameter (by position or by keyword), else None."""
+    if any(isinstance(a, ast.Starred) for a in call.args) or any(k.arg is None for k in call.keywords):
+        return None
+    if index < len(call.args):
+        return call.args[index]
+    if index < len(pnames):
+        for k in call.keywords:
+            if k.arg == pnames[index]:
+                return k.value
+    return None
+
+
+def big_endian_source(fnode, v):
+    """X when v is `int.from_bytes(X, "big")` in any spelling of the arguments (positional, byteorder=, through a
+    local; signed absent or False; byteorder absent is "big" where the interpreter accepts the call at all), else None."""
+    if not (isinstance(v, ast.Call) and chain(v.func) == "int.from_bytes"):
+        return None
+    src = call_arg(v, ["bytes", "byteorder"], 0)
+    order = call_arg(v, ["bytes", "byteorder"], 1)
+    if src is None:
+        return None
+    for k in v.keywords:
+        if k.arg == "signed":
+            sg = resolve_local(fnode, k.value)
+            if not (isinstance(sg, ast.Constant) and sg.value is False):
+                return None
+        elif k.arg not in ("bytes", "byteorder"):
+            return None
+    if len(v.args) > 2:
+        return None
+    if order is not None:
+        order = resolve_local(fnode, order)
+        if not (isinstance(order, ast.Constant) and order.value == "big"):
+            return None
+    return src
+
+
+def _arg0(call, prog=None):
+    """The single argument of a window method call (positional, or by the keyword of the method's parameter)."""
+    if len(call.args) == 1 and not call.keywords:
+        return call.args[0] if not isinstance(call.args[0], ast.Starred) else None
+    if prog is not None and not call.args and len(call.keywords) == 1 and isinstance(call.func, ast.Attribute) and prog.has_func(RW + call.func.attr):
+        return call_arg(call, params(prog.func(RW + call.func.attr)), 0)
+    return None
+
+
+def _verdict_none(facts, v):
+    """The verdict variable holds None: `v is None`, `v == None`, or `v` falsy (the only other values it ever holds
+    are exception instances, which are always true: _unprotect() requires every write to be ReplayError(...) or None)."""
+    return has_fact(facts, "%s is None" % v, True) or has_fact(facts, "%s == None" % v, True) or any(isinstance(e, ast.Name) and e.id == v and not pol for e, pol, _ in facts)
 
 
 @R.clause("C12.a", "window mutations in unprotect only after a normal return of decrypt and of the post-decrypt checks; strike_out guards; window tests precede decrypt; the number is the partial IV")
@@ -720,84 +1260,164 @@ def a(ctx):
     for c in u.post_calls:
         ctx.ob("_post_decrypt_checks runs only after decrypt returned normally", after_normal(cfg, u.dec, cfg.loc1(c)), fi, c)
 
-    # strike_out guards
+    # strike_out guards: facts that hold on every modelled path to the call (not: `if` statements around it)
+    sf = u.sf
     checked = None
     for c in u.strikes:
         nid = cfg.loc1(c)
-        facts = facts_at(cfg, fi.node, nid)
-        arg = _arg0(c)
+        facts = sf.at(nid)
+        arg = _arg0(c, ctx.prog)
         ctx.need(arg is not None, "strike_out call with unexpected arity")
         ctx.ob("strike_out is guarded by the message being a request", any(_side(e, pol, u.msg) == "request" for e, pol, _ in facts), fi, c,
-               detail="guards: %s" % "; ".join("%s is %s" % (stmt_text(e, 50), pol) for e, pol, _ in facts))
-        ctx.ob("strike_out is guarded by the number being present (is not None)", has_fact(facts, "$x is not None", True, {"x": arg}), fi, c)
-        ctx.ob("strike_out is guarded by no pending replay verdict (verdict is None)", has_fact(facts, "%s is None" % u.v, True), fi, c)
+               detail="facts at the call: %s" % show_facts(facts))
+        ctx.ob("strike_out is guarded by the number being present (is not None)", has_fact(facts, "$x is not None", True, {"x": arg}), fi, c,
+               detail="facts at the call: %s" % show_facts(facts))
+        ctx.ob("strike_out is guarded by no pending replay verdict (verdict is None)", _verdict_none(facts, u.v), fi, c,
+               detail="facts at the call: %s" % show_facts(facts))
         ctx.ob("the struck-out number is a plain local", isinstance(arg, ast.Name), fi, c)
         checked = arg if isinstance(arg, ast.Name) else checked
     for c in u.inits:
-        arg = _arg0(c)
+        arg = _arg0(c, ctx.prog)
         ctx.need(arg is not None, "initialize_from_freshlyseen call with unexpected arity")
         ctx.ob("the window is re-initialised from the number that was checked and authenticated", checked is not None and same(arg, checked), fi, c)
 
     # the window tests lie on every request path to decrypt
-    pre_init = [t for t, _ in u.init_tests if cfg.reach({t}) & u.dec]
-    pre_valid = [(t, e) for t, e in u.valid_tests if cfg.reach({t}) & u.dec]
+    def on_response_side(nid):
+        return any(_side(e, pol, u.msg) == "response" for e, pol, _ in sf.at(nid))
+
+    pre_init = [t for t, _ in u.init_tests if cfg.reach({t}) & u.dec and not on_response_side(t)]
+    pre_valid = [(t, e) for t, e in u.valid_tests if cfg.reach({t}) & u.dec and not on_response_side(t)]
     # (a window test on the response side decides nothing about acceptance)
-    pre_init = [t for t in pre_init if not any(_side(e, pol, u.msg) == "response" for e, pol, _ in facts_at(cfg, fi.node, t))]
-    pre_valid = [(t, e) for t, e in pre_valid if not any(_side(x, pol, u.msg) == "response" for x, pol, _ in facts_at(cfg, fi.node, t))]
     uninit_out = {o for t in pre_init for o in outcome(cfg, t, "F")}
     invalid_out = {o for t, _ in pre_valid for o in outcome(cfg, t, "F")}
+    pm = sf.pm
+
+    def window_fact(live, attr):
+        """truth value of the last, still current `<w>.<attr>(...)` decision among the live facts of a path"""
+        for (k, truth), (x, pol, _) in live.items():
+            if isinstance(x, ast.Call) and isinstance(x.func, ast.Attribute) and x.func.attr == attr:
+                return pol
+        return None
+
     for d in u.dec_calls:
         dn = cfg.loc1(d)
-        r = cfg.reach({cfg.entry}, avoid=set(pre_init) | u.resp_outcomes)
-        ctx.ob("every request path to decrypt passes the is_initialized test of the window", dn not in r, fi, d,
-               detail=None if dn not in r else "path: %s" % witness(cfg, cfg.entry, dn, avoid=set(pre_init) | u.resp_outcomes))
-        av = {t for t, _ in pre_valid} | u.resp_outcomes | uninit_out
-        r = cfg.reach({cfg.entry}, avoid=av)
-        ctx.ob("every request path to decrypt with an initialised window passes the is_valid test", dn not in r, fi, d,
-               detail=None if dn not in r else "path: %s" % witness(cfg, cfg.entry, dn, avoid=av))
+        no_init = no_valid = None
+        through = pm.paths_through(dn)
+        ctx.need(bool(through), "the decrypt call lies on no modelled path of unprotect")
+        for p in through:
+            live = sf._path_facts(p.nodes[:p.nodes.index(dn)])
+            if any(_side(x, pol, u.msg) == "response" for x, pol, _ in live.values()):
+                continue
+            ini = window_fact(live, "is_initialized")
+            if ini is None:
+                no_init = no_init or p
+            elif ini and window_fact(live, "is_valid") is None:
+                no_valid = no_valid or p
+        ctx.ob("every request path to decrypt passes the is_initialized test of the window", no_init is None, fi, d,
+               detail=None if no_init is None else "path: %s" % pm.describe(no_init))
+        ctx.ob("every request path to decrypt with an initialised window passes the is_valid test", no_valid is None, fi, d,
+               detail=None if no_valid is None else "path: %s" % pm.describe(no_valid))
     # a negative outcome defines a verdict before decrypting (or leaves the function)
+    stops = u.dec | {cfg.exit}
     for o in sorted(uninit_out | invalid_out):
-        bad = [d for d in u.dec | {cfg.exit} if d in reach_cut(cfg, {o}, avoid=u.def_nodes)]
-        ctx.ob("a failed window test leads to a replay verdict before anything else happens", not bad, fi, cfg.nodes[o].ast,
-               detail=None if not bad else "path: %s" % witness(cfg, o, bad[0], avoid=u.def_nodes))
+        bad = None
+        for p in pm.paths_through(o):
+            for n in p.nodes[p.nodes.index(o) + 1:]:
+                if n in u.def_nodes:
+                    break
+                if n in stops:
+                    bad = bad or p
+                    break
+        ctx.ob("a failed window test leads to a replay verdict before anything else happens", bad is None, fi, cfg.nodes[o].ast,
+               detail=None if bad is None else "path: %s" % pm.describe(bad))
     # same number in test, strike-out and nonce
     for t, e in pre_valid:
-        arg = _arg0(e)
+        arg = _arg0(e, ctx.prog)
         ctx.ob("is_valid tests the number that is later struck out", arg is not None and checked is not None and same(arg, checked), fi, e)
     if checked is not None:
-        conv = []
+        conv = []  # (assignment, value alternative): every definition of the number that is not the sentinel None
         for w in writes_to_name(fi.node, checked.id):
-            if isinstance(w, ast.Assign) and isinstance(w.value, ast.Constant) and w.value.value is None:
-                continue
-            conv.append(w)
+            ctx.need(isinstance(w, ast.Assign), "the checked number is bound by something other than an assignment: %s" % stmt_text(w))
+            for v, _extra in value_alts(fi.node, w.value):
+                if not (isinstance(v, ast.Constant) and v.value is None):
+                    conv.append((w, v, _extra))
         ctx.need(conv, "the checked number is never assigned")
         nonce_calls = [c for c in mcalls(fi.node, "_construct_nonce") if chain(c.func.value) == "self"]
         ctx.floor("_construct_nonce calls in unprotect", len(nonce_calls), 1)
-        for w in conv:
-            b = match("int.from_bytes($p, 'big')", w.value) or match("int.from_bytes($p, byteorder='big')", w.value)
-            ctx.ob("the sequence number is the big-endian integer of the partial IV", b is not None and isinstance(w, ast.Assign), fi, w)
-            if b is None:
+        nf = ctx.prog.lookup_method(fi.cls.qn, "_construct_nonce") if fi.cls is not None else None
+        ctx.need(nf is not None and params(nf), "_construct_nonce is not a method of the security context taking the partial IV")
+        # Same value in the window and in the nonce: on every modelled path to a _construct_nonce call on which a
+        # number was taken from a partial IV, the bytes converted and the bytes handed to the nonce come from the same
+        # definition (copies `a = b` are looked through; a redefinition of either in between breaks the identity).
+        wnodes = {}
+
+        def defs_of(name):
+            if name not in wnodes:
+                wnodes[name] = {k: w for w in writes_to_name(fi.node, name) for k in cfg.locate(w)}
+            return wnodes[name]
+
+        def origin(name, nodes, upto, depth=0):
+            for j in range(upto - 1, -1, -1):
+                w = defs_of(name).get(nodes[j])
+                if w is not None:
+                    if depth < 6 and isinstance(w, ast.Assign) and len(w.targets) == 1 and isinstance(w.targets[0], ast.Name) and isinstance(w.value, ast.Name):
+                        return origin(w.value.id, nodes, j, depth + 1)
+                    return ("def", id(w))
+            return ("entry", name)
+
+        for w, v, extra in conv:
+            piv = big_endian_source(fi.node, v)
+            ctx.ob("the sequence number is the big-endian integer of the partial IV", piv is not None, fi, w)
+            if piv is None:
                 continue
-            piv = b["p"]
-            ok = isinstance(piv, ast.Name) and all(c.args and same(c.args[0], piv) for c in nonce_calls)
-            if ok:
-                wn = cfg.loc1(w)
-                after = cfg.reach({wn})
-                ok = not any(set(cfg.locate(x)) & after for x in writes_to_name(fi.node, piv.id))
-            ctx.ob("the partial IV that is checked is the one that feeds the AEAD nonce", ok, fi, w)
+            wn = cfg.loc1(w)
+            ok = isinstance(piv, ast.Name)
+            bad = None
+            for c in nonce_calls if ok else ():
+                a0 = call_arg(c, params(nf), 0)
+                if not isinstance(a0, ast.Name):
+                    ok = False
+                    break
+                cn = cfg.loc1(c)
+                for p in pm.paths_through(cn):
+                    i = p.nodes.index(cn)
+                    if wn not in p.nodes[:i]:
+                        continue
+                    j = max(k for k, n in enumerate(p.nodes[:i]) if n == wn)
+                    if any(n in defs_of(checked.id) for n in p.nodes[j + 1:i]):
+                        continue  # the number was redefined later on this path: another definition is in force
+                    if any(pm.truth(x, p) is (not pol) for x, pol, _d in extra):
+                        continue  # the other arm of the conditional expression was taken
+                    if origin(piv.id, p.nodes, j) != origin(a0.id, p.nodes, i):
+                        bad = bad or p
+            ctx.ob("the partial IV that is checked is the one that feeds the AEAD nonce", ok and bad is None, fi, w,
+                   detail=None if bad is None else "path: %s" % pm.describe(bad))
 
 
 @R.clause("C12.b", "a replay verdict cannot be lost: only the echo-authenticated kill clears it, and that kill records the number")
 def b(ctx):
     u = _unprotect(ctx)
-    fi, cfg = u.fi, u.cfg
+    fi, cfg, sf = u.fi, u.cfg, u.sf
+    pm = sf.pm
     avoid = u.kill_nodes | u.none_outcomes
     for d in u.defs:
         dn = cfg.loc1(d)
-        r = reach_cut(cfg, {dn}, avoid=avoid)
-        ok = cfg.exit not in r
+        # graph reachability over-approximates the modelled paths: when it finds nothing, no path exists; when it
+        # finds something, only a path with consistent decisions counts (a verdict defined under X and raised under
+        # `if X:` is not lost although the graph has an edge sequence around the raise)
+        ok = cfg.exit not in reach_cut(cfg, {dn}, avoid=avoid)
+        lost = None
+        if not ok:
+            for p in pm.paths_through(dn):
+                if p.end != "return":
+                    continue
+                j = max(i for i, n in enumerate(p.nodes) if n == dn)
+                if not any(n in avoid for n in p.nodes[j + 1:]):
+                    lost = p
+                    break
+            ok = lost is None
         ctx.ob("no path from the replay verdict to the normal return except through the authenticated kill", ok, fi, d,
-               detail=None if ok else "path: %s" % witness(cfg, dn, cfg.exit, avoid=avoid))
+               detail=None if ok else "path: %s (%s)" % (witness(cfg, dn, cfg.exit, avoid=avoid), pm.describe(lost)))
     live_kills = [k for k in u.kills if any(cfg.loc1(k) in cfg.reach({cfg.loc1(d)}) for d in u.defs)]
     dec_results = set()
     for c in u.dec_calls:
@@ -806,37 +1426,44 @@ def b(ctx):
             for t in st.targets:
                 dec_results |= {n.id for n in ast.walk(t) if isinstance(n, ast.Name)}
 
+    # locals that hold (parts of) the decrypted plaintext and nothing else: the decrypt result and whatever is
+    # assigned from an expression over such names only (`body = plaintext[1:]`, `raw = bytes(plaintext)`)
+    plain = set(dec_results)
+    grew = True
+    while grew:
+        grew = False
+        for n in walk_no_nested(fi.node):
+            if isinstance(n, ast.Assign) and len(n.targets) == 1 and isinstance(n.targets[0], ast.Name) and n.targets[0].id not in plain:
+                used = {x.id for x in ast.walk(n.value) if isinstance(x, ast.Name)} - {"bytes", "memoryview", "bytearray"}
+                calls = [c for c in ast.walk(n.value) if isinstance(c, ast.Call) and not (isinstance(c.func, ast.Name) and c.func.id in ("bytes", "memoryview", "bytearray"))]
+                if used and used <= plain and not calls and len(writes_to_name(fi.node, n.targets[0].id)) == 1:
+                    plain.add(n.targets[0].id)
+                    grew = True
+
     def echo_fact(facts):
+        """(message expr, other operand, comparison) of a fact `<m>.opt.echo == self.<...>` that holds."""
         for e, pol, via in facts:
-            for pat, want in (("$a == $b", True),):
-                bnd = {}
-                if isinstance(e, ast.Compare) and len(e.ops) == 1 and isinstance(e.ops[0], (ast.Eq, ast.NotEq)):
-                    eq = isinstance(e.ops[0], ast.Eq)
-                    if eq != pol:
-                        continue
-                    l, r = e.left, e.comparators[0]
-                    for x, y in ((l, r), (r, l)):
-                        bm = match("$m.opt.echo", x)
-                        if bm is not None and chain(y) is not None and chain(y).startswith("self."):
-                            return bm["m"], y, e
+            if isinstance(e, ast.Compare) and len(e.ops) == 1 and isinstance(e.ops[0], (ast.Eq, ast.NotEq)):
+                if isinstance(e.ops[0], ast.Eq) != pol:
+                    continue
+                l, r = e.left, e.comparators[0]
+                for x, y in ((l, r), (r, l)):
+                    x, y = resolve_local(fi.node, x), resolve_local(fi.node, y)
+                    bm = match("$m.opt.echo", x)
+                    if bm is not None and chain(y) is not None and chain(y).startswith("self."):
+                        return bm["m"], y, e
         return None
 
-    def uninit_fact(facts, nid):
-        for e, pol, via in facts:
-            if isinstance(e, ast.Call) and isinstance(e.func, ast.Attribute) and e.func.attr == "is_initialized" and not pol:
-                if via is not None:
-                    # evaluated into a local: nothing may change the window between that and the branch on it
-                    vn, pid = cfg.loc1(via[0]), via[1]
-                    if any(m in cfg.reach({vn}) and pid in cfg.reach({m}) for m in u.mut_nodes):
-                        continue
-                return True
-        return False
+    def uninit_fact(facts):
+        # SiteFacts drops a window-state fact once a mutator ran after it was evaluated (also when it was evaluated
+        # into a local and branched on later), so a fact found here describes the window as it is at the site
+        return any(isinstance(e, ast.Call) and isinstance(e.func, ast.Attribute) and e.func.attr == "is_initialized" and not pol for e, pol, _ in facts)
 
     def check_echo(site, nid, what):
-        facts = facts_at(cfg, fi.node, nid)
+        facts = sf.at(nid)
         ef = echo_fact(facts)
         ctx.ob("%s requires the Echo option to equal this process's recovery value" % what, ef is not None, fi, site,
-               detail="guards: %s" % "; ".join("%s is %s" % (stmt_text(e, 50), pol) for e, pol, _ in facts) if ef is None else None)
+               detail="facts at the site: %s" % show_facts(facts) if ef is None else None)
         if ef is None:
             return
         m, other, cmp_e = ef
@@ -846,7 +1473,7 @@ def b(ctx):
             ok = bool(ws) and all(after_normal(cfg, u.dec, cfg.loc1(w)) for w in ws)
         if ok:
             tn = cfg.loc1(cmp_e)
-            decs = [c for c in mcalls(fi.node, "decode") if chain(c.func.value) == "%s.opt" % m.id and names_in(c) & dec_results]
+            decs = [c for c in mcalls(fi.node, "decode") if chain(c.func.value) == "%s.opt" % m.id and c.args and names_in(c.args[0]) and names_in(c.args[0]) <= plain]
             ok = any(cfg.dominates(cfg.loc1(c), tn) for c in decs)
         ctx.ob("the Echo option compared is the one decoded from the decrypted plaintext", ok, fi, cmp_e)
         ctx.ob("the Echo option is compared with self.echo_recovery", chain(other) == "self.echo_recovery", fi, cmp_e)
@@ -856,18 +1483,23 @@ def b(ctx):
         ctx.ob("the verdict is cleared only after the AEAD decrypt call returned normally", after_normal(cfg, u.dec, kn), fi, k)
         ctx.ob("the verdict is cleared only after _post_decrypt_checks returned normally", after_normal(cfg, u.post, kn), fi, k)
         check_echo(k, kn, "clearing the verdict")
-        ctx.ob("the verdict is cleared only while the window is uninitialised (a reused number stays rejected)", uninit_fact(facts_at(cfg, fi.node, kn), kn), fi, k)
+        # the recording initialize_from_freshlyseen(number) belongs to the kill (next obligation): the window must
+        # have been uninitialised when *that* ran, i.e. its own effect does not count against the fact
         init_nodes = {cfg.loc1(c) for c in u.inits}
+        kf = sf.at(kn, transparent=init_nodes)
+        ctx.ob("the verdict is cleared only while the window is uninitialised (a reused number stays rejected)", uninit_fact(kf), fi, k,
+               detail="facts at the site: %s" % show_facts(kf))
         ok = any(cfg.dominates(i, kn) and after_normal(cfg, {i}, kn) for i in init_nodes) or (bool(init_nodes) and must_complete(cfg, kn, init_nodes))
         ctx.ob("clearing the verdict goes together with recording the number in the window", ok, fi, k)
     for c in u.inits:
         nid = cfg.loc1(c)
-        facts = facts_at(cfg, fi.node, nid)
+        facts = sf.at(nid)
         if any(_side(e, pol, u.msg) == "response" for e, pol, _ in facts):
             ctx.ob("window recovery from a response (bound to a request of this process by the AEAD)", True, fi, c)
         else:
             check_echo(c, nid, "window recovery from a request")
-        ctx.ob("the window is re-initialised only while it is uninitialised", uninit_fact(facts, nid), fi, c)
+        ctx.ob("the window is re-initialised only while it is uninitialised", uninit_fact(facts), fi, c,
+               detail="facts at the site: %s" % show_facts(facts))
 
 
 # ---------------------------------------------------------------------------
@@ -890,14 +1522,22 @@ def _window_fields(ctx):
     return ci, init, "self." + f[p[0]], f[p[1]]
 
 
+def _wfunc(ctx, name):
+    """A ReplayWindow method as the window clauses read it (helpers expanded, locals NOT pre-substituted)."""
+    ctx.prog.func(RW + name)  # the anchor must exist on the indexed tree (AnchorError otherwise)
+    ms = sound_methods(ctx, "oscore.ReplayWindow")
+    ctx.need(name in ms, "ReplayWindow.%s missing from the private re-parse" % name)
+    return ms[name]
+
+
 def _wpaths(ctx, name, sizech):
-    fi = ctx.prog.func(RW + name)
+    fi = _wfunc(ctx, name)
     p = params(fi)
     ctx.need(is_plain_sync(fi), "%s is not a plain function" % name)
     rename = {p[0]: "n"} if p else {}
     for x in p:
         ctx.need(not writes_to_name(fi.node, x), "%s rebinds its parameter" % name)
-    paths = sym_paths(fi, {"self._index": "i"}, bits={"self._bitfield": "B"}, consts={sizech: "s"}, rename=rename)
+    paths = sym_paths(fi, {"self._index": "i"}, bits={"self._bitfield": "B"}, consts={sizech: "s"}, rename=rename, split_choices=True)
     return fi, p, paths
 
 
@@ -953,15 +1593,24 @@ def c(ctx):
     d = N_ - I_ - S_ + Poly.const(1)
 
     def is_cb(call):
-        return chain(call.func) == "self." + cbfield
+        # `self.<callback>()`, or the same through a local that holds the bound callback
+        return chain(resolve_local(fi.node, call.func)) == "self." + cbfield
 
     def valid_fact_index(q):
         for idx, t in enumerate(q.trace):
-            if t[0] == "fact" and t[2] and t[4] == 0:
-                bnd = match("self.is_valid($x)", t[1])
+            if t[0] == "fact" and t[4] == 0:
+                e, pol, N = t[1], t[2], t[3]
+                for _ in range(6):  # look through `not` and through a local that holds the test's result
+                    if isinstance(e, ast.UnaryOp) and isinstance(e.op, ast.Not):
+                        e, pol = e.operand, not pol
+                    elif isinstance(e, ast.Name) and e.id in getattr(N, "eenv", {}) and N.eenv[e.id][2] == 0:
+                        e, N = N.eenv[e.id][0], N.eenv[e.id][1]
+                    else:
+                        break
+                bnd = match("self.is_valid($x)", e) if pol else None
                 if bnd is not None:
                     try:
-                        if t[3].poly(bnd["x"]) == N_:
+                        if N.poly(bnd["x"]) == N_:
                             return idx
                     except NormError:
                         pass
@@ -1077,18 +1726,16 @@ def d(ctx):
     ctx.floor("assignments of echo_recovery in FilesystemSecurityContext.__init__", len(sts), 1)
     for s in sts:
         v = s.value if isinstance(s, (ast.Assign, ast.AnnAssign)) else None
-        b = None
-        if v is not None:
-            b = match("secrets.token_bytes($n)", v) or match("os.urandom($n)", v)
-        ok = b is not None
+        v = resolve_local(init.node, v) if v is not None else None
+        ok = False
         n = None
-        if ok:
-            mod = chain(v.func).split(".")[0]
-            ok = init.module.imports.get(mod) == mod and not writes_to_name(init.node, mod)
-            try:
-                n = norm.consteval(b["n"])
-            except NormError:
-                n = None
+        if isinstance(v, ast.Call) and chain(v.func) is not None and len(v.args) == 1 and not v.keywords:
+            # which function is called is decided by what the name is bound to in the module (import secrets /
+            # from secrets import token_bytes / import secrets as s), not by how it is spelled
+            head = chain(v.func).split(".")[0]
+            target = prog.resolve_in_module(init.module, chain(v.func))
+            ok = target in ("secrets.token_bytes", "os.urandom") and head in init.module.imports and not writes_to_name(init.node, head) and head not in params(init, skip_self=False)
+            n = _const_int(prog, init, v.args[0])
             ok = ok and isinstance(n, int) and n >= 8
         ctx.ob("echo_recovery is at least 8 fresh random bytes drawn in this process (secrets.token_bytes / os.urandom)", ok, init, s,
                detail="value %s" % stmt_text(v) if v is not None else None)
@@ -1114,12 +1761,14 @@ def d(ctx):
 
     # the challenge sent is the value compared
     u = _unprotect(ctx)
-    raises = []
+    raises = []  # (raise statement, constructor call): `raise E(...)` and `e = E(...); raise e` are the same fact
     for n in walk_no_nested(u.fi.node):
-        if isinstance(n, ast.Raise) and isinstance(n.exc, ast.Call):
-            cn = chain(n.exc.func)
-            if cn and prog.is_subclass(prog.resolve_in_module(u.fi.module, cn), "aiocoap.oscore.ReplayErrorWithEcho"):
-                raises.append(n)
+        if isinstance(n, ast.Raise) and n.exc is not None:
+            ex = resolve_local(u.fi.node, n.exc)
+            if isinstance(ex, ast.Call):
+                cn = chain(ex.func)
+                if cn and prog.is_subclass(prog.resolve_in_module(u.fi.module, cn), "aiocoap.oscore.ReplayErrorWithEcho"):
+                    raises.append((n, ex))
     ctx.floor("raise ReplayErrorWithEcho sites in unprotect", len(raises), 1)
     ew = prog.func("oscore.ReplayErrorWithEcho.__init__")
     ep = params(ew)
@@ -1131,9 +1780,13 @@ def d(ctx):
                 return kw.value
         i = ep.index(name)
         return call.args[i] if i < len(call.args) else None
-    for r in raises:
-        ctx.ob("the Echo challenge carries self.echo_recovery, the value later compared", chain(argof(r.exc, "echo")) == "self.echo_recovery", u.fi, r)
-        ctx.ob("the Echo challenge is protected with this security context", chain(argof(r.exc, "secctx")) == "self", u.fi, r)
+    def argchain(call, name):
+        v = argof(call, name)
+        return chain(resolve_local(u.fi.node, v)) if v is not None else None
+
+    for r, ex in raises:
+        ctx.ob("the Echo challenge carries self.echo_recovery, the value later compared", argchain(ex, "echo") == "self.echo_recovery", u.fi, r)
+        ctx.ob("the Echo challenge is protected with this security context", argchain(ex, "secctx") == "self", u.fi, r)
         ctx.ob("the Echo challenge is raised only after decrypt returned normally", after_normal(u.cfg, u.dec, u.cfg.loc1(r)), u.fi, r)
     fields = {}
     for n, bnd in find("self.$f = $v", ew.node):
@@ -1143,15 +1796,37 @@ def d(ctx):
     tm = prog.func("oscore.ReplayErrorWithEcho.to_message")
     msgs = [c for c in calls_in(tm.node) if chain(c.func) == "Message"]
     ctx.floor("Message(...) in ReplayErrorWithEcho.to_message", len(msgs), 1)
+    def rl(e):
+        return chain(resolve_local(tm.node, e)) if e is not None else None
+
     for m in msgs:
-        kw = {k.arg: k.value for k in m.keywords}
-        ctx.ob("the rendered 4.01 carries the stored value in its Echo option", "echo" in kw and chain(kw["echo"]) == "self." + fields["echo"], tm, m)
-        ctx.ob("the Echo challenge is a 4.01 Unauthorized", "code" in kw and chain(kw["code"]) == "UNAUTHORIZED", tm, m)
+        # a constructor keyword and a later assignment to the new object's attribute / option are the same fact
+        kw = {k.arg: [k.value] for k in m.keywords if k.arg}
+        holder = None
+        for n in walk_no_nested(tm.node):
+            if isinstance(n, ast.Assign) and n.value is m and len(n.targets) == 1 and isinstance(n.targets[0], ast.Name) and len(writes_to_name(tm.node, n.targets[0].id)) == 1:
+                holder = n.targets[0].id
+        if holder is not None:
+            for n in walk_no_nested(tm.node):
+                if isinstance(n, ast.Assign) and len(n.targets) == 1 and isinstance(n.targets[0], ast.Attribute):
+                    c = chain(n.targets[0])
+                    if c in ("%s.opt.echo" % holder, "%s.code" % holder):
+                        kw.setdefault(c.split(".")[-1], []).append(n.value)
+        ctx.ob("the rendered 4.01 carries the stored value in its Echo option", bool(kw.get("echo")) and all(rl(v) == "self." + fields["echo"] for v in kw["echo"]), tm, m)
+        ctx.ob("the Echo challenge is a 4.01 Unauthorized", bool(kw.get("code")) and all(_is_unauthorized(prog, tm, v) for v in kw["code"]), tm, m)
     prot = [c for c in mcalls(tm.node, "protect")]
     ctx.floor("protect call in to_message", len(prot), 1)
+    pp = None
     for c in prot:
         kw = {k.arg: k.value for k in c.keywords}
-        ctx.ob("the challenge is protected under the stored context and bound to the offending request", chain(c.func.value) == "self." + fields["secctx"] and "request_id" in kw and chain(kw["request_id"]) == "self." + fields["request_id"], tm, c)
+        rid = kw.get("request_id")
+        if rid is None:
+            # positional: by the parameter list of the (unique) protect method of the security contexts
+            pf = prog.funcs.get("aiocoap.oscore.CanProtect.protect")
+            pp = params(pf) if pf is not None else None
+            if pp and "request_id" in pp and pp.index("request_id") < len(c.args):
+                rid = c.args[pp.index("request_id")]
+        ctx.ob("the challenge is protected under the stored context and bound to the offending request", rl(c.func.value) == "self." + fields["secctx"] and rid is not None and rl(rid) == "self." + fields["request_id"], tm, c)
 
     # is_initialized <=> _index is not None; nothing initialises implicitly
     ci, winit, sizech, cbfield = _window_fields(ctx)
@@ -1166,28 +1841,85 @@ def d(ctx):
     implicit = [n for f in ("_index", "_bitfield") for _, n in stores_to(winit.node, "self." + f)] + [c for m in WINDOW_MUTATORS for c in mcalls(winit.node, m)]
     ctx.ob("the ReplayWindow constructor does not initialise the window", not implicit, winit, implicit[0] if implicit else winit.node, construct=stmt_text(implicit[0]) if implicit else "ReplayWindow.__init__")
 
-    # _load: "unknown" leaves the window uninitialised
-    lf = prog.func(FSC + "._load")
-    lcfg = cfg_of(lf)
-    unk = []
-    for n in lcfg.nodes:
-        if n.kind in ("T", "F") and n.ast is not None:
-            if fact_matches(n.ast, n.kind == "T", "$x == 'unknown'", True) or fact_matches(n.ast, n.kind == "T", "'unknown' == $x", True):
-                unk.append(n)
-    ctx.floor("branches of _load on the persisted window being 'unknown'", len(unk), 1)
-    init_nodes = {lcfg.loc1(c): c for m in WINDOW_MUTATORS for c in mcalls(lf.node, m)}
-    for f in ("_index", "_bitfield"):
-        for _, n in stores_to_any(lf.node, f):
-            init_nodes[lcfg.loc1(n)] = n
-    for n in unk:
-        hit = [c for nid, c in init_nodes.items() if nid in lcfg.reach({n.id})]
-        ctx.ob("a persisted window marked 'unknown' leaves the replay window uninitialised", not hit, lf, hit[0] if hit else n.ast)
-    wins = [n for k, n in stores_to(lf.node, "self.recipient_replay_window") if k == "assign"]
+    # _load: "unknown" leaves the window uninitialised.  Decided over the *unit* of _load: the function together with
+    # the methods of its own class it calls through self (a part of _load that was moved into a helper the engine
+    # could not expand -- e.g. one with a `return` inside try/except -- is still part of loading).
+    unit = call_unit(prog, prog.func(FSC + "._load"))
+
+    def direct_inits(f):
+        out = {}
+        fcfg = cfg_of(f)
+        for n in walk_no_nested(f.node):
+            # called, or handed on as a bound method
+            if isinstance(n, ast.Attribute) and n.attr in WINDOW_MUTATORS and isinstance(n.ctx, ast.Load):
+                out[fcfg.loc1(n)] = n
+        for fld in WINDOW_FIELDS:
+            for _, n in stores_to_any(f.node, fld):
+                out[fcfg.loc1(n)] = n
+        return out
+
+    inits = {short: direct_inits(f) for short, (f, _) in unit.items()}
+    touching = {short for short, d_ in inits.items() if d_}
+    changed = True
+    while changed:
+        changed = False
+        for short, (f, _) in unit.items():
+            for callee, (g, sites) in unit.items():
+                if callee in touching and short not in touching and any(h is f for h, _c in sites):
+                    touching.add(short)
+                    changed = True
+
+    def hits_from(f, srcs, seen):
+        """window-initialising constructs that can run after the nodes `srcs` of f: in f itself, in a callee of the
+        unit called from there, or -- once f has returned or raised -- in whoever called f."""
+        fcfg = cfg_of(f)
+        r = fcfg.reach(set(srcs))
+        found = [n for nid, n in inits[f.short].items() if nid in r]
+        for callee, (g, sites) in unit.items():
+            if callee in touching:
+                found.extend(c for h, c in sites if h is f and fcfg.loc1(c) in r)
+        if (f.short, "up") not in seen:
+            seen.add((f.short, "up"))
+            for h, c in unit[f.short][1]:
+                found.extend(hits_from(h, {cfg_of(h).loc1(c)}, seen))
+        return found
+
+    def is_unknown(f, e):
+        e = resolve_local(f.node, e)
+        if isinstance(e, ast.Name):
+            try:
+                e = prog.module_const(_modshort(f.module), e.id)
+            except AnchorError:
+                return False
+        return isinstance(e, ast.Constant) and e.value == "unknown"
+
+    n_unknown = 0
+    for short, (f, _) in sorted(unit.items()):
+        fcfg = cfg_of(f)
+        for n in fcfg.nodes:
+            if n.kind not in ("T", "F") or not isinstance(n.ast, ast.Compare) or len(n.ast.ops) != 1:
+                continue
+            op, l, r = n.ast.ops[0], n.ast.left, n.ast.comparators[0]
+            if isinstance(op, (ast.Eq, ast.NotEq)):
+                hit = is_unknown(f, l) or is_unknown(f, r)
+                eq = isinstance(op, ast.Eq)
+            elif isinstance(op, (ast.In, ast.NotIn)) and isinstance(r, (ast.Tuple, ast.List, ast.Set)) and len(r.elts) == 1:
+                hit = is_unknown(f, r.elts[0])
+                eq = isinstance(op, ast.In)
+            else:
+                continue
+            if not hit or eq != (n.kind == "T"):
+                continue
+            n_unknown += 1
+            found = hits_from(f, {n.id}, set())
+            ctx.ob("a persisted window marked 'unknown' leaves the replay window uninitialised", not found, f, found[0] if found else n.ast)
+    ctx.floor("branches of _load on the persisted window being 'unknown'", n_unknown, 1)
+    wins = [(f, n) for short, (f, _) in sorted(unit.items()) for k, n in stores_to(f.node, "self.recipient_replay_window") if k == "assign"]
     ctx.floor("assignments of recipient_replay_window in _load", len(wins), 1)
-    for w in wins:
+    for f, w in wins:
         v = w.value
         cn = chain(v.func) if isinstance(v, ast.Call) else None
-        ctx.ob("the file-backed context's window is a ReplayWindow", cn is not None and prog.resolve_in_module(lf.module, cn) == "aiocoap.oscore.ReplayWindow", lf, w)
+        ctx.ob("the file-backed context's window is a ReplayWindow", cn is not None and prog.resolve_in_module(f.module, cn) == "aiocoap.oscore.ReplayWindow", f, w)
 
 
 # ---------------------------------------------------------------------------
@@ -1206,12 +1938,15 @@ def f_own_piv(ctx):
     Necessary condition: every definition of the variable handed to is_valid / strike_out /
     initialize_from_freshlyseen is either None or lies on the side of the `COSE_PIV in unprotected` test on which the
     option carried a partial IV."""
-    fi = ctx.prog.func("oscore.CanUnprotect.unprotect")
+    fi = desugared(ctx.prog, ctx.prog.func(UNP))
     cfg = cfg_of(fi)
+    sf = window_site_facts(ctx.prog, fi)
     names = set()
     for c in calls_in(fi.node):
-        if isinstance(c.func, ast.Attribute) and c.func.attr in ("is_valid", "strike_out", "initialize_from_freshlyseen") and "replay_window" in (chain(c.func.value) or "") and c.args and isinstance(c.args[0], ast.Name):
-            names.add(c.args[0].id)
+        if isinstance(c.func, ast.Attribute) and c.func.attr in ("is_valid", "strike_out", "initialize_from_freshlyseen") and c.args:
+            a0 = c.args[0]
+            if isinstance(a0, ast.Name):
+                names.add(a0.id)
     ctx.ob("one variable carries the sequence number to the replay window", len(names) == 1, fi, fi.node, construct="unprotect: window argument", detail=str(sorted(names)))
     if len(names) != 1:
         return
@@ -1222,24 +1957,69 @@ def f_own_piv(ctx):
         if isinstance(n, ast.Assign) and isinstance(n.targets[0], ast.Tuple) and len(n.targets[0].elts) == 4 and isinstance(n.value, ast.Call) and (call_name(n.value) or "").endswith("._extract_encrypted0") and isinstance(n.targets[0].elts[2], ast.Name):
             U = n.targets[0].elts[2].id
     ctx.need(U is not None, "unprotect does not unpack _extract_encrypted0() into four locals")
+    ctx.need(len(writes_to_name(fi.node, U)) == 1, "the map of unprotected header fields is rebound in unprotect")
+
+    def piv_read(e):
+        """'strict' for a read of U[COSE_PIV] that fails when the key is absent (`U[K]`, `U.pop(K)`), 'lenient' for
+        one that yields None instead (`U.get(K)`, `U.get(K, None)`, `U.pop(K, None)`), else None."""
+        if match("%s[COSE_PIV]" % U, e) is not None or match("%s.pop(COSE_PIV)" % U, e) is not None:
+            return "strict"
+        for pat in ("%s.get(COSE_PIV)" % U, "%s.get(COSE_PIV, None)" % U, "%s.pop(COSE_PIV, None)" % U):
+            if match(pat, e) is not None:
+                return "lenient"
+        return None
+
+    def reaching(name, nid):
+        """value expressions of the definitions of local `name` that reach node nid on some modelled path
+        (None in the list: some path brings no definition, or one the rule cannot read)"""
+        wnodes = {}
+        for w in writes_to_name(fi.node, name):
+            for k in cfg.locate(w):
+                wnodes[k] = w
+        out = {}
+        for p in sf.pm.paths_through(nid):
+            last = None
+            for n in p.nodes[:p.nodes.index(nid)]:
+                if n in wnodes:
+                    last = wnodes[n]
+            if last is None or not (isinstance(last, ast.Assign) and len(last.targets) == 1 and isinstance(last.targets[0], ast.Name)):
+                out[None] = None
+            else:
+                out[id(last)] = last.value
+        return list(out.values())
+
     ws = writes_to_name(fi.node, S)
-    ctx.floor("definitions of the window number in unprotect", len(ws), 2)
+    ctx.floor("definitions of the window number in unprotect", len(ws), 1)
+    n_taken = 0
     for w in ws:
-        v = w.value if isinstance(w, ast.Assign) else None
-        if isinstance(v, ast.Constant) and v.value is None:
-            ctx.ob("without an own partial IV nothing is struck out or initialised (sentinel None)", True, fi, w)
-            continue
+        ctx.need(isinstance(w, ast.Assign) and len(w.targets) == 1 and isinstance(w.targets[0], ast.Name), "the window number is bound by something other than a plain assignment: %s" % stmt_text(w))
         nid = cfg.loc1(w)
-        own = guarded_by(cfg, nid, "COSE_PIV not in %s" % U, False) or guarded_by(cfg, nid, "COSE_PIV in %s" % U, True)
-        ctx.ob("a window number is taken only from a message that carries its own partial IV", own, fi, w, detail="guards: %s" % [(stmt_text(e), p) for e, p in guard_exprs(cfg, nid)])
-        ib = match("int.from_bytes($p, $**kw)", v) or match("int.from_bytes($p, $o)", v)
-        src_ok = False
-        if ib is not None and isinstance(ib["p"], ast.Name):
-            for w2 in writes_to_name(fi.node, ib["p"].id):
-                if cfg.dominates(cfg.loc1(w2), nid) or guarded_by(cfg, cfg.loc1(w2), "COSE_PIV not in %s" % U, False):
-                    if isinstance(w2, ast.Assign) and (match("%s.pop(COSE_PIV)" % U, w2.value) is not None or match("%s[COSE_PIV]" % U, w2.value) is not None):
-                        src_ok = True
-        ctx.ob("that number is the integer value of the partial IV found in the OSCORE option", src_ok, fi, w)
+        # `x = A if c else B` is two definitions, each under its arm's condition
+        for v, extra in value_alts(fi.node, w.value):
+            if isinstance(v, ast.Constant) and v.value is None:
+                ctx.ob("without an own partial IV nothing is struck out or initialised (sentinel None)", True, fi, w)
+                continue
+            n_taken += 1
+            P = call_arg(v, ["bytes"], 0) if isinstance(v, ast.Call) and chain(v.func) == "int.from_bytes" else None
+            srcs = []
+            if P is not None:
+                srcs = reaching(P.id, nid) if isinstance(P, ast.Name) else [P]
+            kinds = [piv_read(x) if x is not None else None for x in srcs]
+            src_ok = bool(kinds) and all(k is not None for k in kinds)
+            # Evidence that the message carried its own partial IV where the number is taken:
+            #  - the arm is only entered when `COSE_PIV in U` held (the later pop does not undo that), or
+            #  - every reaching read is one that raises KeyError without the key (nothing is taken then), or
+            #  - the read yields None without the key and `<piv> is not None` holds at the definition.
+            passed = sf.passed(nid) + extra
+            own = has_fact(passed, "COSE_PIV in %s" % U, True)
+            if not own and src_ok:
+                own = all(k == "strict" for k in kinds)
+                if not own and isinstance(P, ast.Name):
+                    own = has_fact(sf.at(nid) + extra, "%s is not None" % P.id, True)
+            ctx.ob("a window number is taken only from a message that carries its own partial IV", own, fi, w, detail="branch outcomes passed: %s" % show_facts(passed))
+            ctx.ob("that number is the integer value of the partial IV found in the OSCORE option", src_ok, fi, w,
+                   detail="partial IV definitions reaching the conversion: %s" % [stmt_text(x) if x is not None else "<none/unreadable>" for x in srcs])
+    ctx.floor("definitions that take a window number from a partial IV", n_taken, 1)
 
 
 F = "aiocoap/oscore.py"
@@ -1298,5 +2078,16 @@ R.seed("C12.d", F, "                self.replay_window_persisted = False\n      
 R.seed("C12.d", F, "    _index = None\n", "    _index = 0\n", "fresh window counts as initialised")
 
 R.seed("C12.e", F, "        if self.replay_window_persisted:\n            # Just remove the sequence numbers once from the file\n            self.replay_window_persisted = False\n            self._store()", "        if self.replay_window_persisted:\n            # Just remove the sequence numbers once from the file\n            self._store()\n            self.replay_window_persisted = False", "the file keeps a stale real window: after a crash replays of everything but the first request are accepted")
+
+# seeds for the path-sensitive readings (they must keep biting where the shape no longer matters)
+R.seed("C12.a", F, "if not is_response and seqno is not None and replay_error is None:", "if (not is_response and seqno is not None) or replay_error is None:", "guards joined by `or`: none of them holds on every path to strike_out")
+R.seed("C12.a", F, "            seqno = int.from_bytes(partial_iv_short, \"big\")\n", "            seqno = int.from_bytes(partial_iv_short, \"big\")\n            partial_iv_short = partial_iv_short.lstrip(b\"\\0\")\n", "the nonce is built from other bytes than the number checked")
+R.seed("C12.b", F, "            if protected_message.code.is_request():\n                # Either accept", "            if protected_message.code.is_request() and seqno is not None:\n                # Either accept", "a request can fall into the response arm of the recovery: window initialised without Echo")
+R.seed("C12.c", F, "        overshoot = number - (self._index + self._size - 1)\n        if overshoot > 0:\n            self._index += overshoot\n            self._bitfield >>= overshoot\n        assert self.is_valid(number), \"Sequence number was not valid before strike-out\"\n        self._bitfield |= 1 << (number - self._index)\n",
+       "        overshoot = number - (self._index + self._size - 1)\n        mask = 1 << (number - self._index)\n        if overshoot > 0:\n            self._index += overshoot\n            self._bitfield >>= overshoot\n        self._bitfield |= mask\n", "bit mask computed before the window is shifted")
+R.seed("C12.c", F, "        self._index = seen\n        self._bitfield = 1", "        self._index, self._bitfield = 1, seen", "tuple assignment with the fields swapped")
+R.seed("C12.d", F, "                self.replay_window_persisted = True\n\n    # This is called internally", "                self.replay_window_persisted = True\n        if not self.recipient_replay_window.is_initialized():\n            self.recipient_replay_window.initialize_empty()\n\n    # This is called internally", "an 'unknown' window is initialised empty further down in _load")
+R.seed("C12.d", F, "secctx=self, request_id=request_id, echo=self.echo_recovery", "self, request_id, unprotected_message.opt.echo", "positional challenge reflects the client's value")
+R.seed("C12.f", F, "            seqno = int.from_bytes(partial_iv_short, \"big\")\n", "            seqno = int.from_bytes(request_id.partial_iv if is_response else partial_iv_short, \"big\")\n", "a response with its own PIV is numbered by the request's")
 
 R.seed("C12.f", F, "            seqno = None  # sentinel for not striking out anything\n", "            seqno = int.from_bytes(request_id.partial_iv, \"big\")\n", "response without PIV: window initialised from the request's (our own) number")
